@@ -398,8 +398,8 @@ func (d *dagStoreImpl) resolve(name string) (string, error) {
 
 // find finds the sub workflow file with the given name.
 func find(name string) (string, error) {
-	ext := path.Ext(name)
-	if ext == "" {
+	if !util.MatchExtension(name, dag.Exts) {
+		// the name has no DAG extension (a dot inside the name is not one):
 		// try all supported extensions
 		for _, ext := range dag.Exts {
 			if util.FileExists(name + ext) {
